@@ -11,6 +11,7 @@ from astdb import AnalysisBroken, walk
 from interp import Interp, Obj, Cell, Ptr, Region, Thrown, Ref
 from kernels import make_suv
 from poly import Poly
+from guarded import all_vars
 import lifecycle
 import ownrules
 import proxies
@@ -109,7 +110,7 @@ def check_traits(db, rep):
         tgt, hooks, cf = proxies.run_compute(db, op, proxy, d)
         local = True
         for k in range(d * d):
-            vs = tgt.cell(k).value.vars()
+            vs = all_vars(tgt.cell(k).value)
             for v in vs:
                 if v[0] in 'ab' and v[1:].isdigit() and int(v[1:]) != k:
                     local = False
